@@ -251,6 +251,20 @@ def run(tier, seed):
                                 if bad:
                                     ck.fail('a hardware-diagnostics section inside a PEL does not show what its parser gives for (subtype, version, payload)',
                                             rp2 | {'members': bad[:4]}, 'pel_section')
+                # ---- SRC words 6..8 of a BMC hardware-diagnostics code are described also when a hostboot code of the same component was decoded before
+                a1, b1, c1 = pick_sig(rng, chips)
+                words = [0, 0, 0, 0, a1, b1, c1, 0]
+                later = pelbuild.pel([pelbuild.UH(), pelbuild.SRC(asc=b'BD10E510', words=words)], creator=b'O', eid=0x0C200010)
+                first_ = pelbuild.pel([pelbuild.UH(), pelbuild.SRC(asc=b'BC10E510', words=words)], creator=b'O', eid=0x0C200011)
+                apel.reset_caches()
+                alone = apel.real_decode(later)
+                apel.reset_caches()
+                apel.real_decode(first_)
+                after = apel.real_decode(later)
+                ck.case(key=('src-after-hostboot', rnd))
+                ck.count('BMC code decoded after a hostboot code of the same component')
+                if alone[:3] != after[:3]:
+                    ck.fail('the signature shown for SRC words 6..8 depends on a hostboot reference code decoded before', {'op': 'history', 'history': [first_.hex(), later.hex()], 'alone': str(alone[2])[:300], 'after': str(after[2])[:300]}, 'src_history')
                 # ---- a sample of the same calls in an interpreter with assertions disabled (python -O): same results
                 import subprocess
                 oreqs, onorm = [], []
